@@ -430,6 +430,8 @@ pub struct Jar {
 }
 
 pub struct Client {
+    /// the server asked for the authentication cookie and has not been answered yet
+    pub asked_auth: bool,
     conc: Arc<Conc>,
     ctx: Arc<RoundCtx>,
     end: ClientEnd,
@@ -622,9 +624,13 @@ impl Client {
             ("otherKey", Some(_)) => (rsa_enc(other_keypair(), &secret), rsa_enc(other_keypair(), &token)),
             ("garbage", Some(_)) => (self.rng.bytes(128), self.rng.bytes(128)),
             ("badSecretLen", Some(pk)) => {
-                let n = [15usize, 17, 32, 0][(self.var % 4) as usize];
-                self.var_note = format!("badSecretLen:{n}");
-                let s = self.rng.bytes(n);
+                let v = (self.var % 5) as usize;
+                let n = [15usize, 17, 32, 0, 17][v];
+                self.var_note = format!("badSecretLen:{n}{}", if v == 4 { " (leading zero byte)" } else { "" });
+                let mut s = self.rng.bytes(n);
+                if v == 4 {
+                    s[0] = 0; // what a big-integer serialisation of a 16-byte key with the top bit set looks like
+                }
                 *self.ctx.sent_secret.lock().unwrap() = Some(s.clone());
                 (rsa_enc(&pk, &s), rsa_enc(&pk, &token))
             }
@@ -794,6 +800,7 @@ impl Client {
                     }
                     frame(4, &self.body_cookie("passage:session", payload.as_deref()))
                 } else {
+                    self.asked_auth = false;
                     let payload = self.auth_cookie(&v);
                     if st == Stage::AuthCookie {
                         self.stage = Stage::EncResp;
@@ -918,6 +925,9 @@ impl Client {
                     "passage:authentication" => "auth".to_string(),
                     o => format!("other:{o}"),
                 };
+                if l == "auth" && self.dphase == DPhase::Login {
+                    self.asked_auth = true;
+                }
                 json!({"k": "CookieRequest", "key": l})
             }
             (DPhase::Login, 1) => {
@@ -1161,6 +1171,7 @@ pub async fn run_round(
     let server = tokio::spawn(async move { conn.listen().await });
 
     let mut cl = Client {
+        asked_auth: false,
         conc: conc.clone(),
         ctx: ctx.clone(),
         end: end.clone(),
@@ -1193,6 +1204,18 @@ pub async fn run_round(
             for ev in events {
                 if ev["e"] != "rx" {
                     continue;
+                }
+                // a client that answers whenever it is asked: if the server requests the authentication cookie where the scripted behaviour has
+                // no answer next (e.g. on a Login-intent connection), it presents a fresh, validly signed cookie and then carries on
+                let model_asks = events.iter().any(|e| e["e"] == "tx" && e["p"]["k"] == "CookieRequest" && e["p"]["key"] == "auth");
+                if cl.asked_auth && !model_asks && !server.is_finished() {
+                    let f = json!({"k": "LoginCookieResponse", "which": "auth", "v": "fresh", "unscripted": true});
+                    if let Action::Send(b) = cl.build(&f) {
+                        cl.push(json!({"e": "rx", "f": f, "t": ms(t0)}));
+                        end.push(&b);
+                        settle().await;
+                        cl.drain(ms(t0));
+                    }
                 }
                 let act = cl.build(&ev["f"]);
                 cl.push(json!({"e": "rx", "f": ev["f"], "t": ms(t0)}));
@@ -1407,7 +1430,7 @@ fn fanout_of(tr: &[Value], full: bool) -> u64 {
             }
             if f["k"] == "EncryptionResponse" {
                 n = n.max(match f["c"].as_str().unwrap_or("") {
-                    "badSecretLen" => 4,
+                    "badSecretLen" => 5,
                     "prefixToken" => 3,
                     "wrongToken" => if full { 8 } else { 2 },
                     _ => 1,
